@@ -10,5 +10,11 @@ ovdir="$WORKDIR/overlay/maprt"
 mkdir -p "$ovdir"
 frag=$(python3 "$VERIF/tools/goroot-overlay/gen_map_overlay.py" "$ovdir")
 echo "{\"Replace\": $frag}" > "$ovdir/overlay.json"
+# virtual file added to package generator (C12 drives the real autosaver): exported access only
+python3 - "$ovdir/overlay.json" "$REPO/generator/zz_verif_export.go" "$VERIF/rt-overlay/generator/zz_verif_export.go" <<'PY'
+import json, sys
+p, k, v = sys.argv[1:]
+d = json.load(open(p)); d["Replace"][k] = v; json.dump(d, open(p, "w"), indent=1)
+PY
 cd "$VERIF/harness"
 go build -trimpath $MODFLAG -overlay "$ovdir/overlay.json" -o "$out" "./cmd/${prop}m"
